@@ -39,7 +39,23 @@ struct Pair {
 impl Pair {
     fn json(&self) -> Value {
         json!({"kind": if self.android {"android"} else {"web"}, "origin": self.origin, "rp_id": self.rp,
-            "insecure_localhost": self.localhost, "custom_provider": self.custom, "tag": self.tag})
+            "insecure_localhost": self.localhost, "custom_provider": self.custom, "tag": self.tag,
+            "insecure_localhost_setter_calls": self.flag_history(), "provider_error_variant": if self.custom { self.err_variant() } else { 0 }})
+    }
+    fn h(&self) -> u64 {
+        crate::rng::fnv_str(&format!("{}|{:?}|{}", self.origin, self.rp, self.android))
+    }
+    /// The calls made to the insecure-localhost setter, the last one being the configuration in force.
+    fn flag_history(&self) -> Vec<bool> {
+        match self.h() % 4 {
+            0 => vec![!self.localhost, self.localhost],
+            1 => vec![self.localhost, !self.localhost, self.localhost],
+            _ => vec![self.localhost],
+        }
+    }
+    /// Which error variant the custom provider reports refusals with.
+    fn err_variant(&self) -> u8 {
+        ((self.h() >> 8) % 4) as u8
     }
 }
 
@@ -138,7 +154,11 @@ fn verify_pair(rep: &mut Report, reference: &Reference, log: &std::sync::Arc<Log
     } else {
         RecTld::default_list(log.clone())
     };
-    let verifier = RpIdVerifier::new(tld).allows_insecure_localhost(p.localhost);
+    let tld = if p.custom { tld.reporting_errors_as(p.err_variant()) } else { tld };
+    let mut verifier = RpIdVerifier::new(tld);
+    for f in p.flag_history() {
+        verifier = verifier.allows_insecure_localhost(f);
+    }
     let got: Result<Result<String, String>, (String, String)> = catch(|| {
         if p.android {
             let link = UnverifiedAssetLink::new(
@@ -251,7 +271,12 @@ fn end_to_end(rep: &mut Report, reference: &Reference, p: &Pair, index: u64) {
     } else {
         RecTld::default_list(rig.log.clone())
     };
-    let mut client = rig.client_with(AuthCfg::default(), tld, p.localhost);
+    let tld = if p.custom { tld.reporting_errors_as(p.err_variant()) } else { tld };
+    let hist = p.flag_history();
+    let mut client = rig.client_with(AuthCfg::default(), tld, hist[0]);
+    for f in &hist[1..] {
+        client = client.allows_insecure_localhost(*f);
+    }
     let verdict = reference.judge(p);
     let mut case = p.json();
     case["index"] = json!(index);
